@@ -55,16 +55,17 @@ Qed.
 
 Theorem C10_answer_wf_partial : forall ls q p downenc td,
   wf_labels ls -> ls <> [] -> q_name q = name_of ls -> q_id q < 65536 ->
-  (q_type q = T_NULL \/ q_type q = T_PRIVATE \/ q_type q = T_TXT) ->
+  (q_type q = T_NULL \/ q_type q = T_PRIVATE \/ q_type q = T_TXT \/ q_type q = T_CNAME \/ q_type q = T_A) ->
   (length p <= 4098)%nat ->
   exists m td' msg, write_dns q p downenc td = (Some m, td') /\ wf_msg m = Some msg /\ answer_ok q ls msg.
 Proof.
   intros ls q p downenc td Hwf Hne Hn Hid Hty Hp.
   destruct t_private_facts as [Hlt [Hop1 Hop2]].
-  destruct Hty as [Hty|[Hty|Hty]].
+  destruct Hty as [Hty|[Hty|[Hty|Hty]]].
   - apply answer_wf_opaque; try assumption; rewrite Hty; [unfold T_NULL; lia|exact Hop2].
   - apply answer_wf_opaque; try assumption; rewrite Hty; assumption.
   - apply answer_wf_txt; assumption.
+  - apply answer_wf_cname; assumption.
 Qed.
 Print Assumptions C10_answer_wf_partial.
 
